@@ -61,6 +61,29 @@ def reader_decoder(idx, L):
         first = first or n
     if chain:
         return {"kind": "chain", "node": first, "pairs": chain}
+    # one left-to-right pass: re.sub(r"\\.", lambda m: TABLE.get(m.group(0), m.group(0)), text)
+    for n in ast.walk(fn):
+        if isinstance(n, ast.Call) and isinstance(n.func, ast.Attribute) and n.func.attr == "sub" and len(n.args) >= 3 and isinstance(n.args[0], ast.Constant) and n.args[0].value == "\\\\." and isinstance(n.args[1], ast.Lambda):
+            lam = n.args[1]
+            marg = lam.args.args[0].arg if lam.args.args else None
+            b = lam.body
+            grp = "%s.group(0)" % marg
+            if isinstance(b, ast.Call) and isinstance(b.func, ast.Attribute) and b.func.attr == "get" and len(b.args) == 2 and K.src(b.args[0]).replace(" ", "") in (grp, "%s.group()" % marg) and K.src(b.args[1]).replace(" ", "") in (grp, "%s.group()" % marg):
+                table = b.func.value
+                pairs = None
+                if isinstance(table, ast.Name):
+                    for st in ast.walk(fn):
+                        if isinstance(st, ast.Assign) and any(isinstance(t_, ast.Name) and t_.id == table.id for t_ in st.targets):
+                            v_ = st.value
+                            if isinstance(v_, ast.Call) and isinstance(v_.func, ast.Name) and v_.func.id == "dict" and len(v_.args) == 1:
+                                v_ = v_.args[0]
+                            pairs = _pairs_of(idx, L.mod, cls_node, v_)
+                else:
+                    pairs = _pairs_of(idx, L.mod, cls_node, table)
+                if pairs is None or not all(len(a_) == 2 and a_[0] == "\\" for a_, _b in pairs):
+                    raise AnalysisError("t_STRING decodes escapes with a table the analyser cannot read")
+                dotall = any(k.arg == "flags" and "DOTALL" in K.src(k.value) for k in n.keywords)
+                return {"kind": "singlepass", "node": n, "pairs": pairs, "dotall": dotall}
     other = [c for c in ast.walk(fn) if isinstance(c, ast.Call) and isinstance(c.func, ast.Attribute) and c.func.attr in ("replace", "translate", "sub")]
     if other:
         raise AnalysisError("t_STRING rewrites the text with `%s`, outside the recognised decoders" % K.src(other[0])[:50])
@@ -78,6 +101,18 @@ def decode_with(dec, text):
         for a, b in dec["pairs"]:
             text = text.replace(a, b)
         return text
+    if dec["kind"] == "singlepass":
+        table = dict(dec["pairs"])
+        out, i = [], 0
+        while i < len(text):
+            if text[i] == "\\" and i + 1 < len(text) and (dec.get("dotall") or text[i + 1] != "\n"):
+                seq = text[i:i + 2]
+                out.append(table.get(seq, seq))
+                i += 2
+            else:
+                out.append(text[i])
+                i += 1
+        return "".join(out)
     if dec["kind"] == "none":
         return text
     raise AnalysisError("decoder kind %s cannot be evaluated" % dec["kind"])
